@@ -62,3 +62,33 @@ package home
 //@   ensures present: usrID in ab.failedAuths
 //@   ensures num: ab.failedAuths[usrID].num == (old(usrID in ab.failedAuths) ? old(ab.failedAuths[usrID].num) + 1 : 1)
 //@   ensures others: forall u string :: u != usrID ==> (u in ab.failedAuths) == old(u in ab.failedAuths) && ab.failedAuths[u] == old(ab.failedAuths[u])
+
+// ---- C14: the configuration file is only ever replaced atomically ----
+// Every file-writing call in package home is an obligation (sweep): the configuration path is written only through
+// renameio's maybe.WriteFile (write temp file, fsync, rename); the other writers target other paths.
+
+//@ func (c *configuration) write(tlsMgr *tlsManager) (err error)
+//@   property C14
+//@   requires !held(c.RWMutex) && !rheld(c.RWMutex)
+//@   modifies *
+//@   callsite github.com/google/renameio/v2/maybe.WriteFile(filename, data, perm) requires filename == configFilePath()
+
+//@ func parseConfig() (err error)
+//@   property C14
+//@   modifies *
+//@   callsite github.com/google/renameio/v2/maybe.WriteFile(filename, data, perm) requires filename == configFilePath()
+
+// Fixed system path of the systemd-resolved drop-in (not the configuration file).
+//@ func disableDNSStubListener(ctx context.Context, l *slog.Logger) (err error)
+//@   property C14
+//@   modifies *
+//@   callsite os.WriteFile(name, data, perm) requires name == resolvedConfPath
+
+// trusted distinct-path: the PID file path is chosen by the operator (--pidfile); it cannot be proved different from the
+// configuration path and is assumed to be.
+//@ func writePIDFile(fn string) (r0 bool)
+//@   property C14
+//@   modifies *
+//@   callsite os.WriteFile(name, data, perm) requires name == fn0
+
+//@ sweep C14 os.WriteFile, os.Create, os.OpenFile, os.Truncate, github.com/google/renameio/v2/maybe.WriteFile, github.com/google/renameio/v2.WriteFile
